@@ -31,6 +31,13 @@ def msgpack_fixed():
         out.append({"id": "load-" + sfx, "doc": load_doc, "root": load_root, "pol": {"mm": "throw", "ov": "throw"}, "stream": stream})
         out.append({"id": "loadskip-" + sfx, "doc": load_doc, "root": load_root, "pol": {"mm": "skip", "ov": "skip"}, "stream": stream})
         out.append({"id": "save-" + sfx, "save": True, "root": save_root, "pol": {}, "stream": stream})
+        # members the target never requests, with payloads larger than the reader's window, at the end of the document
+        # (skipped by the scope's destructor) and before the requested one (skipped while searching for the key)
+        tail_doc = [0x82, 0xa1, 0x61, 5, 0xa1, 0x62, 0xd9, 40] + [120] * 40
+        head_doc = [0x83, 0xa1, 0x62, 0xc4, 30] + [7] * 30 + [0xa1, 0x61, 5, 0xa1, 0x63, 0x92, 0xd9, 33] + [121] * 33 + [0xcd, 1, 0]
+        only_a = {"k": "obj", "ops": [{"op": "req", "ks": S("a"), "t": "i8"}]}
+        out.append({"id": "unreadtail-" + sfx, "doc": tail_doc, "root": only_a, "pol": {"mm": "throw", "ov": "throw"}, "stream": stream})
+        out.append({"id": "unreadhead-" + sfx, "doc": head_doc, "root": only_a, "pol": {"mm": "throw", "ov": "throw"}, "stream": stream})
     return out
 
 
